@@ -23,6 +23,9 @@ func TestC04(t *testing.T) {
 		n = 3000
 	}
 	for _, cc := range storeh.Corpus {
+		if cc.Faulty() { // failing writes inside DeleteRange: an [fcase], run by the C08 / C14 drivers (storeh.FaultCases)
+			continue
+		}
 		cfg := storeh.Config{Batch: cc.Batch, Cache: 4, ICache: 4, U: 24, NH: 1, ProbeEvery: true, Ranges: 2}
 		res := storeh.Run(t, rng, cfg, len(cc.Ops), storeh.Scripted(cc.Ops))
 		w.Add(res.Term, res.Descr, "corpus/"+cc.Name, true)
